@@ -5,6 +5,7 @@ import WD.Proofs.Observer.Inv1
 import WD.Proofs.Observer.LStep
 import WD.Proofs.Observer.CStep
 import WD.Proofs.Observer.OStep
+import WD.Proofs.Observer.SStep
 import WD.Proofs.Observer.Counterexamples
 namespace WD.ProofsObs
 open WD WD.Obs
